@@ -410,6 +410,9 @@ func genScenario(p *profile) func(t *rapid.T) Scenario {
 		sc.Cfg.ProxyTimeoutMs = rapid.SampledFrom(p.proxyTimeouts).Draw(t, "proxyTimeout")
 		sc.Cfg.Store = rapid.SampledFrom(p.stores).Draw(t, "store")
 		sc.Cfg.TwoServers = rapid.IntRange(0, 99).Draw(t, "two") < p.twoServers
+		if sc.Cfg.TwoServers && rapid.IntRange(0, 3).Draw(t, "shared") == 0 {
+			sc.Cfg.SharedCache = true
+		}
 		sc.Keys = genKeys(t, p)
 		g := &genState{t: t, p: p, sc: &sc, lastT: 0}
 		n := rapid.IntRange(p.minOps, p.maxOps).Draw(t, "nOps")
